@@ -407,6 +407,34 @@ Theorem C04_response_round_trip_length :
 Proof. exact response_round_trip_length. Qed.
 Print Assumptions C04_response_round_trip_length.
 
+(* ... and a WHOLE chunked response: Transfer-Encoding "chunked" in any letter case, any plain
+   header fields, EVERY partition of the body into chunks with any admissible spelling of the
+   size lines, no trailer, followed by ANY bytes: accepted; header map without the
+   Transfer-Encoding field, ContentLength -1, chunked framing, Close = false, body = the
+   concatenation of the chunk data, and the message ends exactly after the final CRLF. *)
+Theorem C04_response_round_trip_chunked :
+  forall meth bufsize d1 d2 d3 reason fs te cs l0 rest,
+  is_head meth = false ->
+  is_digit d1 = true -> is_digit d2 = true -> is_digit d3 = true ->
+  body_allowed_for_status (100 * dval d1 + 10 * dval d2 + dval d3)%Z = true ->
+  mem_byte LF reason = false ->
+  Forall field_ok fs -> Forall plain_field fs ->
+  to_lower te = bs "chunked" -> piece_ok te ->
+  chunks_ok bufsize 0 cs -> size_line_ok bufsize l0 0 ->
+  parse_response meth bufsize
+    (bs "HTTP/1.1" ++ SP :: ([d1; d2; d3] ++ SP :: reason) ++ CRLF ++
+     render_fields (fs ++ [te_field te]) ++ CRLF ++
+     render_chunks cs ++ l0 ++ CRLF ++ CRLF ++ rest) =
+    Accepted {| r_proto := bs "HTTP/1.1";
+                r_code := (100 * dval d1 + 10 * dval d2 + dval d3)%Z;
+                r_status := [d1; d2; d3] ++ SP :: reason;
+                r_header := header_of_fields fs; r_content_length := (-1)%Z;
+                r_chunked := true; r_close := false; r_framing := FrChunked;
+                r_trailer_declared := [] |}
+             {| b_data := concat (map snd cs); b_end := BOk; b_trailer := []; b_rest := rest |}.
+Proof. exact response_round_trip_chunked. Qed.
+Print Assumptions C04_response_round_trip_chunked.
+
 (* the model's one-step line reader IS textproto's readLineSlice over bufio.ReadLine's
    buffer-sized fragments (ReadSlice finds LF iff within the buffer; ErrBufferFull => isPrefix,
    a trailing CR put back; a final fragment without LF; io.EOF drops what was read), for every
